@@ -315,7 +315,7 @@ def obligations(tier, seed):
     fspec = dict(fac["cube"]["spec"])
     for t in fspec["tasks"]:
         t.pop("wprule", None)
-    members.append(("prod", fspec, [["w0", 1, 2], ["w1", 1, 2], ["cap0", 1, 2], ["z0", 1, 2]], {"z1": 1, "cap1": 1, "fs0": 1, "fs1": 1}))
+    members.append(("prod", fspec, [["w0", 1, 2], ["w1", 1, 2], ["cap0", 0, 2], ["z0", 0, 2]], {"z1": 1, "cap1": 1, "fs0": 1, "fs1": 1}))
     members.append(("sub-never", {"tasks": [{"w": "$w0"}, {"w": 1, "subproject": True}], "edges": [[0, 1, 0]], "teams": profiles.layout_workers("shared1", 2), "run": {"max_time": 8}},
                     [["w0", 0, 2]], {"resim": False}))
     members.append(("sub-configured", {"tasks": [{"w": "$w0"}, {"w": 1, "subproject": True}], "edges": [[0, 1, 0]], "teams": profiles.layout_workers("shared1", 2), "run": {"max_time": 8}},
